@@ -11,7 +11,7 @@
    byte-level StrInput overrides (tied by the back-end comparison C10) and fuel on the buffered side. *)
 From Coq Require Import List NArith Bool.
 Import ListNotations.
-Require Import Parser SBase SFetch Pipe SBuf Grammar C02base C02tail C02run ScanWP ScanSafeTop ScanFuel ScanFuelFetch ScanFuelTop ScanFuelAll.
+Require Import Parser SBase SFetch Pipe SBuf Grammar C02base C02tail C02run ScanWP ScanSafeTop ScanFuel ScanFuelFetch ScanFuelTop ScanFuelAll ScanSafeStrTop.
 
 (* The pull parser never panics (pop_state on an empty stack, fetch_token without peek, unreachable! arms,
    State::End in the state machine), whatever the token stream and however the scanner ended: a panic verdict
@@ -72,3 +72,20 @@ Print Assumptions C01_parser_terminates_linear.
 Theorem C01_pipeline_terminates_linear : forall orig : list N, snd (run_str orig) <> PFuel.
 Proof. exact pipeline_never_out_of_fuel. Qed.
 Print Assumptions C01_pipeline_terminates_linear.
+
+(* ---- the string input never panics either (port of the joint proof to str_ops) ---- *)
+Theorem C01_scanner_never_panics_str : forall F fuel input n,
+  snd (scan_all str_ops F fuel (init_sc {| si_chars := input; si_look := 0 |}) []) <> SPanic n.
+Proof. exact scanner_never_panics_str. Qed.
+Print Assumptions C01_scanner_never_panics_str.
+
+Theorem C01_pipeline_never_panics_str : forall input n, snd (run_str input) <> PPanic n.
+Proof. exact pipeline_never_panics_str. Qed.
+Print Assumptions C01_pipeline_never_panics_str.
+
+(* TOTAL CORRECTNESS of the model pipeline over the string input: for EVERY input the run, given fuel linear in the
+   input length, ends in a complete event stream (PDone) or in a first scan / parse error - never in a panic, never
+   by exhausting its fuel. *)
+Theorem C01_pipeline_ends_properly : forall orig : list N, proper_pend (snd (run_str orig)).
+Proof. exact pipeline_ends_properly. Qed.
+Print Assumptions C01_pipeline_ends_properly.
